@@ -48,7 +48,7 @@ NAMES = ["alpha", "beta", "gamma", "delta", "eps", "zeta", "eta", "theta"]
 @st.composite
 def template_program(draw, kinds=None):
     kind = draw(st.sampled_from(kinds)) if kinds else draw(st.sampled_from(["kwargs", "percent-keys", "or-union", "merge-union", "typeddict", "protocol", "in-union",
-                                 "set-literal", "format-keys", "dict-union", "generic-protocol", "generic-protocol", "collect", "collect", "global-rebind", "use-builtin", "shared-generic"]))
+                                 "set-literal", "format-keys", "dict-union", "generic-protocol", "generic-protocol", "collect", "collect", "global-rebind", "use-builtin", "shared-generic", "freed-signature", "freed-signature"]))
     names = draw(st.lists(st.sampled_from(NAMES), min_size=3, max_size=6, unique=True))
     head = "from typing import *\nfrom typing_extensions import *\n"
     if kind == "generic-protocol":
@@ -58,6 +58,21 @@ def template_program(draw, kinds=None):
         t = draw(st.sampled_from(["int", "str", "float", "bytes"]))
         u = draw(st.sampled_from(["int", "str", "float", "list[int]", "list[str]"]))
         return head + f"def want(x: {proto}[{t}]) -> None: ...\ndef g(i: {u}):\n    want(i)\n"
+    if kind == "freed-signature":
+        # objects that die during a check (signatures of nested functions, created and dropped with the enclosing
+        # scope) followed by callables whose signatures are created afterwards: anything remembered by id() of a
+        # dead object can be picked up by an unrelated one
+        lits = ["1", "'s'", "1.5", "b'x'", "[1]", "(1, 2)", "{1: 2}", "{1}", "None"]
+        n = draw(st.integers(6, 16))
+        first = draw(st.integers(0, len(lits) - 1))
+        deco = draw(st.sampled_from(["deco", "functools.wraps(len)", "functools.lru_cache(None)"]))
+        parts = [head + "import functools\ndef deco(f):\n    return f\n"]
+        for i in range(n):
+            lit = lits[(first + i) % len(lits)]
+            parts.append(f"def outer{i}():\n    def inner(y):\n        return {lit}\n    return None\n"
+                         f"@{deco}\ndef helper{i}(x):\n    return x\n"
+                         f"def use{i}():\n    reveal_type(helper{i}(1))\n    return len(helper{i}(1))\n")
+        return "".join(parts)
     if kind == "shared-generic":
         # generic typeshed functions whose parameters are structural protocols over a shared type variable
         # (divmod: SupportsDivMod[T, R] and T; max / sorted: SupportsRichComparison): verdicts cached per
